@@ -172,8 +172,10 @@ func sweepSpaces(thorough bool, seed uint64) []space {
 		name32 = "2^24 strided over 2^32"
 	}
 	rad := int64(1) << 12
+	nLen := uint64(1)<<15 + 2
 	if thorough {
 		rad = 1 << 18
+		nLen = 1<<17 + 2
 	}
 	per := uint64(2*rad + 1)
 	hexaMag := func(i uint64) int64 {
@@ -220,6 +222,9 @@ func sweepSpaces(thorough bool, seed uint64) []space {
 		{"bytes", "every byte string of length <= 3", nStr3,
 			func(i uint64) call { b := str3(i); return bytesCall(b, uint32(mix(i^seed)), int(i%uint64(len(b)+1))) },
 			func(i uint64) bool { b := str3(i); return bytesFast(b, uint32(mix(i^seed)), int(i%uint64(len(b)+1))) }},
+		{"bytes", fmt.Sprintf("one byte string of every length 0..%d (content pseudo-random per length and seed)", nLen-1), nLen,
+			func(i uint64) call { b := strLen(i, seed); return bytesCall(b, uint32(mix(i^seed)), int(mix(i+seed)%uint64(len(b)+1))) },
+			func(i uint64) bool { b := strLen(i, seed); return bytesFast(b, uint32(mix(i^seed)), int(mix(i+seed)%uint64(len(b)+1))) }},
 		{"long", fmt.Sprintf("%d 64-bit words strided uniformly over 2^64", n/16), n / 16,
 			func(i uint64) call { return longCall(long64(i)) },
 			func(i uint64) bool { v := long64(i); return hll.MurmurHashLong(v) == refMurmurLong(v) }},
@@ -240,6 +245,21 @@ func sweepSpaces(thorough bool, seed uint64) []space {
 				return bit4Fast(uint32(p>>32), uint32(p), mix(p))
 			}},
 	}
+}
+
+// strLen: the byte string of length n of this run (an implementation may treat long inputs
+// differently from short ones -- a block path, a vectorised path, a cache keyed by length --
+// at a threshold nobody announced: every length is tried)
+func strLen(n, seed uint64) []byte {
+	b := make([]byte, n)
+	x := mix(n ^ seed<<20)
+	for i := range b {
+		if i%8 == 0 {
+			x = mix(x)
+		}
+		b[i] = byte(x >> (8 * uint(i%8)))
+	}
+	return b
 }
 
 type mismatch struct {
@@ -329,21 +349,27 @@ func runSweep(c *core.Ctx, t *core.Trace) {
 				continue
 			}
 			n := uint64(c.Pick(48, 400))
-			if n > s.n {
-				n = s.n
+			sn := s.n
+			if s.name == "bytes" && sn > 640 && sn < nStr3 {
+				// the space of one string per length: TLC judges the sample among the lengths up to 640
+				// (its evaluation of the operators on strings of tens of kilobytes takes minutes each)
+				sn = 640
+			}
+			if n > sn {
+				n = sn
 			}
 			var cs []call
 			for j := uint64(0); j < n; j++ {
-				i := (s.n / n) * j
+				i := (sn / n) * j
 				if j%2 == 1 {
-					i += mix(j^uint64(c.Seed)) % (s.n / n)
+					i += mix(j^uint64(c.Seed)) % (sn / n)
 				}
 				cs = append(cs, s.mk(i))
 				if s.fast != nil && s.fast(i) != agree(s.mk(i)) {
 					panic(fmt.Sprintf("sweep machinery: fast and full comparison differ on %s index %d", s.name, i))
 				}
 			}
-			cs = append(cs, s.mk(s.n-1))
+			cs = append(cs, s.mk(sn-1))
 			runHistory(c, t, "sweepref", si, cs, true)
 		}
 	}
